@@ -18,12 +18,16 @@ def bundleRes : R Bundle → String
   | .error .reject => "REJECT"
 
 def handle : List String → String
-  | "C07" :: flags :: maxCost :: len :: q :: refs :: prog :: gen :: genRom :: rom :: puz :: pks :: _markers =>
+  | "C07" :: flags :: maxCost :: len :: q :: refs :: prog :: gen :: genRom :: rom :: puz :: pks :: markers =>
     match Sexp.ofBytes (hexArg prog) with
     | none => "bad-tree"
     | some pt =>
       let valid := C01.pkList pks
-      let p : Params := { flags := natArg flags, pkOk := fun pk => valid.contains pk, sigOk := fun pairs => pairs.isEmpty }
+      -- the signature offered is the identity (verifies exactly the empty pair list), or - marker
+      -- `@stray-sig`, used only with generators that collect no pairs - a valid non-identity signature,
+      -- which verifies no pair list the generator can produce
+      let stray := markers.contains "@stray-sig"
+      let p : Params := { flags := natArg flags, pkOk := fun pk => valid.contains pk, sigOk := fun pairs => !stray && pairs.isEmpty }
       let nrefs := if refs = "-" then 0 else (refs.splitOn ",").length
       let g : GenInput := { len := natArg len, startsQuote := q == "1", prog := pt, nrefs := nrefs }
       let genRun := parseRun gen
